@@ -14,6 +14,8 @@ ITER = {'iter', 'iter_mut', 'keys', 'values', 'values_mut', 'into_iter', 'into_k
 INSENSITIVE_TERMINALS = {'count', 'len', 'any', 'all', 'sum', 'product', 'max', 'min', 'max_by_key', 'min_by_key', 'contains', 'is_empty', 'is_subset', 'is_superset', 'is_disjoint'}
 ADAPTERS = {'map', 'filter', 'filter_map', 'flat_map', 'cloned', 'copied', 'enumerate', 'zip', 'chain', 'rev', 'peekable', 'skip', 'take', 'inspect', 'flatten', 'by_ref', 'into_iter', 'iter'}
 
+POSITIONAL = {'zip', 'zip_eq', 'enumerate', 'take', 'skip', 'step_by', 'nth', 'next', 'first', 'last', 'position', 'chunks', 'tuples', 'tuple_windows', 'interleave'}
+
 REVIEWED = {
     ('Forest::wire_partition', 'into_values'): 'subsets are collected into WirePartition; its only consumer get_sigma_map inserts into a map keyed by wire, so subset order is irrelevant',
     ('generate_partial_witness', 'into_iter'): 'inputs are written with set_target: inserts commute, and conflicting values are an error in any order',
@@ -86,6 +88,12 @@ def classify(fn, site, par):
     if any(x in ('debug', 'trace', 'info', 'log', 'warn') or x.endswith('::log') for x in mac):
         return 'log-only', chain, term
     if any(c.startswith('sorted') for c in chain):
+        # the sort only helps if nothing positional happened to the unordered sequence before it: `iter().zip(xs).sorted()` has
+        # already paired each element with a partner chosen by the hash order
+        first = min(i for i, c in enumerate(chain) if c.startswith('sorted'))
+        pos = [c for c in chain[:first] if c in POSITIONAL]
+        if pos:
+            return 'order-dependent', chain, term
         return 'sorted', chain, term
     TRANSPARENT = {'unwrap', 'expect', 'unwrap_or', 'unwrap_or_default', 'unwrap_or_else', 'copied', 'cloned'}
     eff = [c for c in chain if c not in TRANSPARENT]
